@@ -150,7 +150,18 @@ func d18Gen(t *rapid.T, st *vStat) *d18Case {
 					cmds = append(cmds, drawUnlock(idx, true))
 				}
 			case p < 45 || p >= 65:
-				cmds = append(cmds, drawLock(idx, false))
+				lc := drawLock(idx, false)
+				kaFrom := 84
+				if text {
+					kaFrom = 68
+				}
+				// only on connections without a client id: a dead connection's proxy that a successor adopted
+				// sees the successor's stream, so whether its keep-alive request is renewed depends on whether
+				// some other late reply happened to be delivered first (observation in notes/C18.md, not judged)
+				if lc.T > 0 && cid < 0 && pct("keepalive") >= kaFrom {
+					lc.KA = true // keep-alive time-out: the queued request is renewed while its connection lives
+				}
+				cmds = append(cmds, lc)
 			default:
 				cmds = append(cmds, drawUnlock(idx, false))
 			}
